@@ -174,10 +174,16 @@ func runRetry(sc *RetryScenario) *RetryResult {
 		cur := w.Current()
 		return st.QueuedTasks == 0 && st.QueuedRetries == 0 && w.Healthy() && cur != nil && cur.Drained() && rec.Quiet() >= quiet
 	}
+	runaway := false
 	waitQuiet := func() bool {
 		for time.Now().Before(deadline) {
 			if isQuiet() {
 				return true
+			}
+			if rec.Len() > 3000 {
+				// a client that keeps reconnecting / retransmitting without end: no point in recording more
+				runaway = true
+				return false
 			}
 			time.Sleep(3 * time.Millisecond)
 		}
@@ -308,6 +314,12 @@ func runRetry(sc *RetryScenario) *RetryResult {
 			}
 		case "sleep":
 			time.Sleep(ms(r.Ms, 10))
+		case "ping":
+			// an application-level Ping with its own (short) deadline
+			pctx, pcancel := context.WithTimeout(ctx, ms(r.Ms, 3))
+			perr := cli.Ping(pctx)
+			pcancel()
+			rec.Emit(netsim.Event{"e": "AppPing", "res": netsim.ErrClass(perr)})
 		case "cancelconnect":
 			connCancel()
 		case "disconnect":
@@ -445,6 +457,10 @@ func runRetry(sc *RetryScenario) *RetryResult {
 	}
 	rec.Emit(netsim.Event{"e": "Idle", "drained": drained, "healthy": w.Healthy(), "qt": st.QueuedTasks, "qr": st.QueuedRetries, "g": curG,
 		"unreached": len(unreached)})
+	if runaway {
+		info["runaway"] = true
+		rec.Freeze()
+	}
 	if sc.Opts.SampleAfterMs > 0 {
 		sampleClient(rec, cli, w)
 		time.Sleep(ms(sc.Opts.SampleAfterMs, 0))
@@ -483,7 +499,7 @@ func runRetry(sc *RetryScenario) *RetryResult {
 	cfg := map[string]interface{}{"deliverOnRel": sc.Opts.DeliverOnRel, "alwaysResub": sc.Opts.AlwaysResub,
 		"respTimeout": sc.Opts.RespTimeoutMs > 0, "autoRelease": true, "directQoS0": sc.Opts.DirectQoS0, "mode": "reconn",
 		"reconnBaseUs": ms(sc.Opts.ReconnBaseMs, 2).Microseconds(), "reconnMaxUs": ms(sc.Opts.ReconnMaxMs, 10).Microseconds(),
-		"noReestablish": sc.Opts.NoReestablish || disconnected}
+		"noReestablish": sc.Opts.NoReestablish || disconnected, "hammer": sc.Opts.Hammer}
 	return &RetryResult{ID: sc.ID, Cfg: cfg, Evs: rec.Snapshot(), Info: info}
 }
 
